@@ -741,10 +741,7 @@ func (fg *FuncGen) load(p *Ptr) string {
 	case "aidx":
 		return "(select " + fg.load(p.Parent) + " " + p.Idx + ")"
 	case "elem":
-		if p.ElemSort == "Val" {
-			return fmt.Sprintf("(gat %s %s %s)", fg.famIn(fg.st, g.SeqFamily(p.ElemSort)), p.Slice, p.Idx)
-		}
-		return fmt.Sprintf("(select (select %s (sref %s)) (+ (soff %s) %s))", fg.famIn(fg.st, g.SeqFamily(p.ElemSort)), p.Slice, p.Slice, p.Idx)
+		return fmt.Sprintf("(%s %s %s %s)", gatName(p.ElemSort), fg.famIn(fg.st, g.SeqFamily(p.ElemSort)), p.Slice, p.Idx)
 	}
 	return "0"
 }
@@ -1393,6 +1390,10 @@ func (fg *FuncGen) assumeTypeInvsForParams() {
 			continue
 		}
 		ref := fg.val[p][0].S
+		if ti := fg.typeInvFor(p.Type()); ti != nil {
+			fg.assumed = append(fg.assumed, "type invariant of "+ti.Type+" for parameter "+p.Name())
+			fg.emit("(assert (=> (> %s 0) %s)) ; type invariant of the parameter", ref, fg.typeInvTerm(ti, p.Type(), ref))
+		}
 		for i := 0; i < st.NumFields(); i++ {
 			fam := fg.g.FieldFamily(pt.Elem(), i)
 			if w := fg.g.WF(st.Field(i).Type(), "(select "+fam+"!0 "+ref+")"); w != "" {
